@@ -72,8 +72,10 @@ func fertRef(sc *Scenario, e *FertEvent) (ndir, nh4, nfast, nslow float64, ok bo
 	nd0 := tot * row.Ndir
 	nh4 = nd0 * row.NH4 * (1 - row.Loss)
 	ndir = nd0 - nd0*row.NH4*row.Loss
-	nfast = (tot - ndir) * row.Nfst
-	nslow = (tot - ndir) * row.Nslo
+	// the organic part is what is not directly available - the table's Ndir share taken BEFORE the volatilisation loss is
+	// deducted from it (the loss leaves the system, it does not turn into organic N)
+	nfast = (tot - nd0) * row.Nfst
+	nslow = (tot - nd0) * row.Nslo
 	return ndir, nh4, nfast, nslow, true
 }
 
